@@ -73,16 +73,21 @@ pub fn all(values: &[Value]) -> Value {
   if values.is_empty() {
     return VALUE_TRUE;
   }
+  let mut all_true = true;
   for value in values {
     if let Value::Boolean(v) = value {
       if !v {
         return VALUE_FALSE;
       }
     } else {
-      return value_null!();
+      all_true = false;
     }
   }
-  VALUE_TRUE
+  if all_true {
+    VALUE_TRUE
+  } else {
+    value_null!()
+  }
 }
 
 /// Returns `true` if any item is `true`, `false` if empty or all items are `false`, else `null`.
@@ -1061,10 +1066,11 @@ pub fn sublist3(list: &Value, position_value: &Value, length_value: &Value) -> V
           }
           if position_number.is_negative() {
             if let Some(position) = position_number.abs().to_usize() {
-              let first = items.len() - position;
-              let last = first + length;
-              if first < items.len() && last <= items.len() {
-                return Value::List(Values::new(items.as_vec()[first..last].to_vec()));
+              if let Some(first) = items.len().checked_sub(position) {
+                let last = first + length;
+                if first < items.len() && last <= items.len() {
+                  return Value::List(Values::new(items.as_vec()[first..last].to_vec()));
+                }
               }
             }
           }
